@@ -139,8 +139,8 @@ inline History histParse(const std::string& t) {
 
 static const int NSCALARS = 12;
 static const char* kScalarName[] = {"null", "true", "42", "-7e10", "1.5", "1e100", "\"k\"linked", "\"k\"copied", "\"v2\"copied", "raw[1]", "raw\\xc9", "raw\\xc6\\x80000000"};
-static const char* kTexts[] = {"{\"k\":[1,\"k\"]}", "[1e100,\"v2\"]", "\"k\"", "[1,", "msgpack{\"k\":[1,\"k\"]}"};
-static const int NTEXTS = 5;
+static const char* kTexts[] = {"{\"k\":[1,\"k\"]}", "[1e100,\"v2\"]", "\"k\"", "[1,", "msgpack{\"k\":[1,\"k\"]}", "[\"k\",\"k\\u0000x\"]"};
+static const int NTEXTS = 6;
 static const char kMsgPackText[] = "\x81\xa1k\x92\x01\xa1k";  // {"k":[1,"k"]}
 
 inline std::string opText(const Op& o) {
